@@ -225,7 +225,7 @@ Proof. vm_compute. reflexivity. Qed.
 
 (** Two views with distinct names: two streams; a third with the name of the first in other casing is merged. *)
 Definition ex_inst : inst :=
-  {| i_name := str "req"; i_desc := []; i_unit := []; i_kind := KCounter; i_float := false;
+  {| i_name := str "req"; i_desc := []; i_unit := []; i_kind := KCounter; i_float := false; i_rsel := ASNil;
      i_sname := str "lib"; i_sver := []; i_surl := [] |}.
 Definition ex_view (mn : bytes) (a : aggsel) : view :=
   {| vc_name := str "req"; vc_desc := []; vc_kind := None; vc_unit := [];
@@ -253,7 +253,7 @@ Print Assumptions c12_order_free.
     a second instrument mapped by a view onto the identity of the first feeds the first one's stream
     even though its own view says drop. *)
 Definition ex_inst2 : inst :=
-  {| i_name := str "req"; i_desc := str "d2"; i_unit := []; i_kind := KCounter; i_float := false;
+  {| i_name := str "req"; i_desc := str "d2"; i_unit := []; i_kind := KCounter; i_float := false; i_rsel := ASNil;
      i_sname := str "lib"; i_sver := []; i_surl := [] |}.
 Definition ex_view_desc (cd md : bytes) (a : aggsel) : view :=
   {| vc_name := str "req"; vc_desc := cd; vc_kind := None; vc_unit := [];
